@@ -223,6 +223,7 @@ def correspondence(ctx):
     })
     ctx.coverage['geometry_kernel_unit_variants'] = geometry_equivariance(ctx, rng)
     ctx.coverage.update(layout_sweep(ctx, rng))
+    ctx.coverage.update(near_orthogonal_sweep(ctx, random.Random(ctx.seed + 11), 14, 4))
 
 
 # ---- geometry kernels (beamline.py): the equivariance statement evaluated on the implementation.  Their model-side
@@ -460,6 +461,136 @@ def geometry_layout_cases(rng, n_variants, int_every=4):
     return allc
 
 
+# ---- NEARLY perpendicular incident beams.  The gravity kernels dispatch on |g . b1| > 1e-10 [unit of b1] * |g|: an
+# absolute length in whatever unit the incident beam uses.  A beam tilted out of the plane perpendicular to gravity by
+# 1e-12 .. 1e-5 rad (misaligned positions read from a file) sits close to that decision; the property demands that
+# re-expressing it in mm / m / km changes (two_theta, phi) by no more than rounding, and that scattering_angle_in_yz_plane
+# accepts or refuses the same geometry in every unit.  The implementation's own orthogonality tolerance makes this
+# false INSIDE its decision window (off-perpendicular component d = |g . b1| / |g| between 1e-10 of the smallest and
+# 1e-10 of the largest unit): there the two code paths differ by about the tilt d / |b1| (measured on the current
+# source: up to 6e-8 rad for a 1 m beam between mm and km).  The statement evaluated here is
+# therefore: |difference| <= 1e-10 rad + 8 * tilt if d <= ORTHO_WINDOW_M else 1e-10 rad; uniform accept / refuse
+# outside the window.  In-window unit dependence is counted in the coverage, not reported.
+NEAR_LEN_U = [('mm', 1e-3), ('m', 1.0), ('km', 1e3)]
+ORTHO_WINDOW_M = 1e-10 * 1e3          # 1e-10 in the largest length unit of the sweep, in m
+
+
+def near_orthogonal_cases(rng, n_scalar, n_array):
+    """groups of calls: one group = one physical setup, evaluated with the incident beam in mm, m and km (the other
+    operands in units drawn per variant)"""
+    import math
+    cases, setups = [], []
+
+    def beam(tilt, length, az):
+        return [length * math.cos(tilt) * math.sin(az), length * math.sin(tilt), length * math.cos(tilt) * math.cos(az)]
+
+    def draw():
+        tilt = 10 ** rng.uniform(-12, -5) * rng.choice([1, -1])
+        return tilt, 10 ** rng.uniform(0, 2), rng.choice([0.0, 0.0, rng.uniform(-0.2, 0.2)])
+
+    for n in range(n_scalar + n_array):
+        arr = n >= n_scalar
+        beams = [draw() for _ in range(SIZES['det'] if arr else 1)]
+        ibd = ['det'] if arr else []
+        sbd = rng.choice([['det'], ['det', 'pix']]) if arr else rng.choice(SB_LAYOUTS)
+        wld = rng.choice(WL_LAYOUTS)
+        su = len(setups)
+        setups.append({'beams': [{'tilt_rad': t, 'length_m': l, 'azimuth_rad': a, 'off_perpendicular_m': abs(l * math.sin(t))}
+                                 for t, l, a in beams],
+                       'layout': {'incident_beam': ibd, 'scattered_beam': sbd, 'wavelength': wld}})
+        for fn in ('scattering_angles_with_gravity', 'scattering_angle_in_yz_plane'):
+            for lu in NEAR_LEN_U:
+                lu2, wu, gu = rng.choice(LEN_U), rng.choice(WL_U), rng.choice(G_U)
+                ops = {'incident_beam': _lvec(ibd, lambda ix: beam(*beams[ix.get('det', 0)]), lu),
+                       'scattered_beam': _lvec(sbd, lambda ix: _phys_b2(ix.get('det', 0), ix.get('pix', 0)), lu2),
+                       'wavelength': _lnum(wld, lambda ix: _phys_wl(wld, ix), wu, 'float64'),
+                       'gravity': _lvec([], lambda ix: GRAV, gu)}
+                cases.append({'id': len(cases), 'kname': fn, 'call': BL + fn, 'operands': ops, 'setup': su,
+                              'variant': {'incident_length': lu[0], 'scattered_length': lu2[0], 'wavelength': wu[0], 'gravity': gu[0]}})
+    return cases, setups
+
+
+def near_orthogonal_sweep(ctx, rng, n_scalar, n_array):
+    cases, setups = near_orthogonal_cases(rng, n_scalar, n_array)
+    res = ctx.run_impl('c07_layouts.py', {'cases': [{k: c[k] for k in ('id', 'call', 'operands')} for c in cases]}, timeout=3000)
+    by_id = {r['id']: r for r in res['cases']}
+    groups = {}
+    for c in cases:
+        groups.setdefault((c['setup'], c['kname']), []).append(c)
+    n_cmp = n_window_dep = n_strict = 0
+    for (su, k), lst in groups.items():
+        st = setups[su]
+        dmax = max(b['off_perpendicular_m'] for b in st['beams'])
+        outs = [(c, by_id[c['id']]) for c in lst if 'build_error' not in by_id[c['id']]]
+        desc = lambda c, r: {'kernel': k, 'setup': st, 'variant': c['variant'], 'call': c['call'], 'operands': c['operands'],
+                             'outcome': r.get('error') or 'ok'}
+        strict = dmax > ORTHO_WINDOW_M
+        n_strict += strict
+        ok = [(c, r) for c, r in outs if 'vars' in r]
+        if ok and len(ok) != len(outs):
+            c, r = next((c, r) for c, r in outs if 'vars' not in r)
+            if strict or k != 'scattering_angle_in_yz_plane' or r.get('error') != 'ValueError':
+                ctx.violation(f'{k}:near-orthogonal-refused',
+                              f'{k}: an incident beam tilted {max(st["beams"], key=lambda b: b["off_perpendicular_m"])["tilt_rad"]:.3g} rad out of the plane perpendicular to gravity '
+                              f'(off-perpendicular component {dmax:.3g} m) is accepted with incident_beam in {ok[0][0]["variant"]["incident_length"]} '
+                              f'and refused in {c["variant"]["incident_length"]} ({r.get("error")}: {r.get("error_text")})',
+                              {'case': desc(c, r), 'accepted': desc(*ok[0])})
+            else:
+                n_window_dep += 1
+        if not ok:
+            continue
+        ref = next(((c, r) for c, r in ok if c['variant']['incident_length'] == 'm'), ok[0])
+        for c, r in ok:
+            if c is ref[0]:
+                continue
+            for key, v in r['vars'].items():
+                rv = ref[1]['vars'].get(key)
+                name = k + ('.' + key if key else '')
+                if rv is None or 'values' not in v or 'values' not in rv or v['dims'] != rv['dims'] or v['shape'] != rv['shape']:
+                    ctx.violation(f'{name}:near-orthogonal-shape', f'{name}: result dims/shape/type depend on the unit of the incident beam: '
+                                  f'{ {kk: v.get(kk) for kk in ("dims", "shape", "dtype")} } vs { {kk: (rv or {}).get(kk) for kk in ("dims", "shape", "dtype")} }',
+                                  {'case': desc(c, r), 'reference': desc(*ref)})
+                    continue
+                if (v.get('unit') or {}).get('name') != 'rad' or v['dtype'] != 'float64':
+                    ctx.violation(f'{name}:near-orthogonal-output', f'{name}: output unit/dtype {(v.get("unit") or {}).get("name")}/{v["dtype"]} '
+                                  f'is not rad/float64', {'case': desc(c, r)})
+                worst = None
+                for ix, a, b in zip(_indices(v['dims']), v['values'], rv['values']):
+                    n_cmp += 1
+                    bm = st['beams'][ix.get('det', 0) if len(st['beams']) > 1 else 0]
+                    tol = 1e-10 + (8 * abs(bm['tilt_rad']) if bm['off_perpendicular_m'] <= ORTHO_WINDOW_M else 0.0)
+                    if isinstance(a, str) or isinstance(b, str):
+                        bad, dev = a != b, float('inf')
+                    else:
+                        dev = abs(a - b)
+                        bad = dev > tol
+                        if dev > 1e-10 and not bad:
+                            n_window_dep += 1
+                    if bad and (worst is None or dev > worst[0]):
+                        worst = (dev, ix, a, b, bm)
+                if worst:
+                    dev, ix, a, b, bm = worst
+                    ctx.violation(f'{name}:near-orthogonal-equivariance',
+                                  f'{name}: for an incident beam of {bm["length_m"]:.4g} m tilted {bm["tilt_rad"]:.3g} rad out of the plane '
+                                  f'perpendicular to gravity (off-perpendicular component {bm["off_perpendicular_m"]:.3g} m) element {ix} is '
+                                  f'{a!r} rad with incident_beam in {c["variant"]["incident_length"]} but {b!r} rad in '
+                                  f'{ref[0]["variant"]["incident_length"]} (difference {dev:.3g} rad)',
+                                  {'case': desc(c, r), 'reference': desc(*ref), 'element': ix, 'got': a, 'reference_value': b})
+    return {'near_orthogonal_setups': len(setups), 'near_orthogonal_calls': len(cases), 'near_orthogonal_elements_compared': n_cmp,
+            'near_orthogonal_setup_kernels_outside_tolerance_window': n_strict,
+            'near_orthogonal_unit_dependent_inside_tolerance_window': n_window_dep,
+            'near_orthogonal_rule': 'incident beams tilted +-1e-12..1e-5 rad (log-uniform) out of the plane perpendicular to gravity, length '
+                                    '1..100 m (log-uniform), azimuth 0 or +-0.2 rad; 0-d or [det] (independent tilts per element) against the '
+                                    'scattered-beam / wavelength layouts of the layout sweep; each setup evaluated by '
+                                    'scattering_angles_with_gravity and scattering_angle_in_yz_plane with incident_beam in mm, m, km and the '
+                                    'other operands in units drawn per call; results compared between the unit variants (1e-10 rad; + 8 tilt '
+                                    'when the off-perpendicular component is <= 1e-7 m = the kernels\' own 1e-10 tolerance in km), '
+                                    'accept/refuse uniform outside that window',
+            'near_orthogonal_samples': [dict(setups[i], outcomes={c['kname'] + '[' + c['variant']['incident_length'] + ']':
+                                                                   by_id[c['id']].get('error') or 'ok' for c in cases if c['setup'] == i})
+                                        for i in range(min(2, len(setups)))]}
+
+
 LAYOUT_PATTERNS = [   # (dims of the data operands, dims of the other operands)
     (['event'], []), (['det', 'event'], ['det']), (['event'], ['det']), (['det'], ['det']), ([], ['det']),
     (['event', 'det'], ['det'])]
@@ -654,6 +785,7 @@ def search(ctx, broken):
     n0 = len(ctx.violations)
     geometry_equivariance(ctx, rng)
     layout_sweep(ctx, rng, scale=3)
+    near_orthogonal_sweep(ctx, rng, 60, 12)
     groups = []
     for kname in DATA_OPERANDS:
         allc = list(grid(kname))
